@@ -89,6 +89,10 @@ func (v *Vex) getSize() int {
 }
 
 func (o *Opcode) getSize() int {
+	// Byte は 16 進文字列 ("8B", "0F20" など): 2 文字で 1 バイト
+	if n := len(strings.ReplaceAll(o.Byte, " ", "")) / 2; n > 1 {
+		return n
+	}
 	return 1 // Opcode size
 }
 
